@@ -339,6 +339,17 @@ func (w *pw) run(op pwOp) {
 				w.ev("remoteRemove(%s)", a)
 			}
 		}
+	case "rremoveheld":
+		// the cloud loses the secondary address(es) a live pod holds (out-of-band unassign, or a metadata view lagging behind)
+		if r := w.live[op.Pod]; r != nil {
+			for _, a := range resIPs(r) {
+				if e := w.cloud.ENIs[r.ENI.ID]; e != nil && a != e.Primary {
+					w.cloud.RemoteRemove(a)
+					w.removed[a] = len(w.cloud.Log)
+					w.ev("remoteRemove(%s held by %s)", a, op.Pod)
+				}
+			}
+		}
 	case "advance":
 		vrt.Advance(time.Duration(op.N) * time.Second)
 		w.ev("clock+=%ds", op.N)
@@ -705,6 +716,22 @@ func pwRun(r *ev.Rec, t *testing.T, prop string, scs []pwScenario, oracles ...st
 		}
 		return
 	}
+	if only := os.Getenv("VERIF_ONLY"); only != "" {
+		// debugging aid: restrict to the scenarios whose name contains the given text
+		var keep []pwScenario
+		for _, sc := range scs {
+			if strings.Contains(sc.Name, only) {
+				keep = append(keep, sc)
+			}
+		}
+		scs = keep
+	}
+	mine := 0
+	for i := range scs {
+		if i%sn == si {
+			mine++
+		}
+	}
 	for i := range scs {
 		if i%sn != si {
 			continue
@@ -714,7 +741,15 @@ func pwRun(r *ev.Rec, t *testing.T, prop string, scs []pwScenario, oracles ...st
 		if steps == 0 {
 			steps = 1500
 		}
-		cfg := vrt.Config{Name: sc.Name, Budget: sc.Budget, MaxSteps: steps, Prune: true, Deadline: dl, Delay: true}
+		// time slicing: every scenario of this shard gets an equal share of what is left of the budget (what a scenario does
+		// not use is passed on), so that a late scenario is explored - possibly partially - rather than never started
+		slice := time.Until(dl) / time.Duration(max(mine, 1))
+		mine--
+		sdl := time.Now().Add(slice)
+		if sdl.After(dl) || mine == 0 {
+			sdl = dl
+		}
+		cfg := vrt.Config{Name: sc.Name, Budget: sc.Budget, MaxSteps: steps, Prune: true, Deadline: sdl, Delay: true}
 		body := pwBody(sc, or)
 		res := vrt.Explore(cfg, body)
 		pwReport(r, cfg, res, body, t, prop)
@@ -723,14 +758,25 @@ func pwRun(r *ev.Rec, t *testing.T, prop string, scs []pwScenario, oracles ...st
 			thr = append(thr, fmt.Sprint(th))
 		}
 		r.Case(fmt.Sprintf("%s/%d", sc.Name, len(res.Outcomes)), map[string]any{"scenario": sc.Name, "config": sc.Cfg.String(), "threads": thr, "after": fmt.Sprint(sc.After), "budget": sc.Budget, "faults": sc.Faults,
-			"executions": res.Execs, "pruned": res.Pruned, "truncated": res.Truncated, "states": res.States, "distinct_outcomes": len(res.Outcomes), "max_depth": res.MaxDepth, "exhaustive": res.Exhaustive})
+			"executions": res.Execs, "pruned": res.Pruned, "truncated": res.Truncated, "states": res.States, "distinct_outcomes": len(res.Outcomes), "max_depth": res.MaxDepth, "exhaustive": res.Exhaustive, "outcomes": pwFew(res)})
 		for o := range res.Outcomes {
 			r.Distinct(sc.Name + "|" + o)
 		}
 		r.Set("outcomes/"+sc.Name, len(res.Outcomes))
+		if !res.Exhaustive {
+			r.NotExhaustive()
+		}
 		if time.Now().After(dl) {
 			r.NotExhaustive()
 			break
 		}
 	}
+}
+
+// pwFew lists the observed outcomes when there are few of them (reading aid against vacuous scenarios).
+func pwFew(res *vrt.Result) []string {
+	if len(res.Outcomes) > 4 {
+		return nil
+	}
+	return res.OutcomeList()
 }
